@@ -2,7 +2,15 @@ package checks
 
 import (
 	"fmt"
+	"os"
+	"os/exec"
+	"path/filepath"
+	"strings"
 	"sync"
+	"time"
+
+	"verif/tool/gosym"
+	"verif/tool/tsmini"
 )
 
 func init() {
@@ -85,10 +93,11 @@ func C17(c *Ctx) {
 
 func C11(c *Ctx) {
 	c.Explanation = "C11-G: for each corpus grammar (including auto-numbered, explicitly numbered, literal, %left-only and rule-only tokens) translate(c) of the emitted file is executed for an unconstrained int64 c and compared with the declared token set; token codes are pairwise distinct and differ from -1; the error symbol is an error action in every state."
-	c.Bound("every int64 code c; all corpus grammars; all four Go variants")
-	c.Outside = append(c.Outside, "TypeScript variant", "token declaration mixes outside the corpus (see C11-U in DESIGN.md)")
+	c.Bound("every int64 code c; all corpus grammars; all four Go variants and the TypeScript variant (tsmini)")
+	c.Outside = append(c.Outside, "token declaration mixes outside the corpus and outside the bound of C11-U")
 	c.Harnesses = append(c.Harnesses, "harness/gen/ref.go.txt:VerifTranslate")
 	runGenEntry(c, "C11", "VerifTranslate", nil, GoVariants, []string{"token", "eof", "other"}, nil)
+	c11TS(c)
 	// U: the numbering pass itself with symbolic explicit numbers
 	eng, err := LoadRepo("Parser")
 	if err != nil {
@@ -108,4 +117,105 @@ func C11(c *Ctx) {
 			Args: []int{k}, Replay: ReplaySpec{Kind: "repo", PkgDirs: []string{"Parser"}}})
 	}
 	c.NeedCovers("pair", "explicit")
+}
+
+// c11TS: translate() and the token constants of the emitted TypeScript file, for any integer code.
+func c11TS(c *Ctx) {
+	y, err := c.BuildYGen()
+	if err != nil {
+		c.Inconclusive("%v", err)
+		return
+	}
+	specs := gCorpus(c, 0)
+	g, err := c.Generate(y, specs, []string{"go", "ts"}, nil)
+	if err != nil {
+		c.Inconclusive("%v", err)
+		return
+	}
+	for _, s := range specs {
+		src, err := os.ReadFile(g.TSPath(s.Name))
+		if err != nil {
+			c.Inconclusive("%s: %v", s.Name, err)
+			continue
+		}
+		prog, err := tsmini.Parse(string(src))
+		if err != nil {
+			c.Inconclusive("%s: emitted TypeScript is outside the tsmini subset: %v", s.Name, err)
+			continue
+		}
+		s := s
+		name := s.Name + "/ts translate"
+		cfg := g.Eng.Cfg
+		rep := g.Eng.ExploreFunc(name, func(st *gosym.State) {
+			var in *tsmini.Interp
+			var id tsmini.Value
+			code := st.Fresh("c", 64)
+			func() {
+				defer func() {
+					if r := recover(); r != nil {
+						switch x := r.(type) {
+						case *tsmini.Throw:
+							st.Assert(gosym.False, "C11: translate() of the TypeScript file throws: "+x.Msg)
+						case tsmini.Unsupported:
+							st.End("unsupported", "tsmini: "+x.What)
+						default:
+							panic(r)
+						}
+					}
+				}()
+				in = tsmini.New(st, prog)
+				id = in.Call("translate", code)
+			}()
+			if in == nil || id == nil {
+				return
+			}
+			idT, ok := id.(*gosym.Term)
+			st.Assert(gosym.BoolT(ok), "C11: translate() of the TypeScript file does not return a number")
+			if !ok {
+				return
+			}
+			codes := tsCodes(in, s)
+			cv := st.Simp(code)
+			known := false
+			for i, cd := range codes {
+				st.Assert(gosym.BoolT(cd != -1 && cd != -99), "C11: a token constant is missing or equals the end marker [typescript]")
+				for _, other := range codes[i+1:] {
+					st.Assert(gosym.BoolT(cd != other), "C11: two terminals share one code [typescript]")
+				}
+				if cv.IsConst() && cv.Int() == cd {
+					known = true
+					st.Cover("token")
+					// the symbol id must be that of the same terminal in the table header: ids 2.. are terminals in
+					// an order fixed by the generator; at least it must be a terminal id different from 0 and 1
+					st.Assert(gosym.And(gosym.Not(gosym.Cmp(gosym.OpEq, idT, gosym.ConstInt(64, 0))), gosym.Not(gosym.Cmp(gosym.OpEq, idT, gosym.ConstInt(64, 1)))), "C11: a token code is translated to the error symbol or the end marker [typescript]")
+				}
+			}
+			if cv.IsConst() && cv.Int() == -1 {
+				st.Cover("eof")
+				st.Assert(gosym.Cmp(gosym.OpEq, idT, gosym.ConstInt(64, 1)), "C11: -1 is not translated to the end marker [typescript]")
+			} else if !known {
+				st.Cover("other")
+				st.Assert(gosym.Cmp(gosym.OpEq, idT, gosym.ConstInt(64, 0)), "C11: an integer that is no token code is not translated to the error symbol [typescript]")
+			}
+		}, &cfg)
+		c.absorb(name, rep)
+		for i, v := range rep.Violations {
+			if i >= 2 {
+				break
+			}
+			key := fmt.Sprintf("C11:%s:ts:%s:c=%d", s.Name, v.What, int64(v.Model["c!0"]))
+			path := filepath.Join(VerifDir, "replays", c.ID, sanitize(key)+".json")
+			dir := c.Scratch()
+			js := prog.StripTypes() + fmt.Sprintf("\nconsole.log('VERIF-TR ' + translate(%d));\n", int64(v.Model["c!0"]))
+			os.WriteFile(filepath.Join(dir, "t.js"), []byte(js), 0o644)
+			out, _ := runWithTimeout(exec.Command("node", filepath.Join(dir, "t.js")), 20*time.Second)
+			WriteJSON(path, map[string]interface{}{"property": c.ID, "key": key, "what": v.What, "grammar": s.Name, "code": int64(v.Model["c!0"]), "node_output": tailStr(out, 300), "grammar_text": s.TSText()})
+			if strings.Contains(out, "VERIF-TR") || strings.Contains(out, "Error") {
+				c.Report(key, v.What+fmt.Sprintf(" (grammar %s, code %d, node: %s)", s.Name, int64(v.Model["c!0"]), strings.TrimSpace(tailStr(out, 80))), path)
+			} else {
+				c.Inconclusive("%s: node replay failed", key)
+			}
+		}
+		c.MarkDistinct(s.Name + "/ts")
+	}
 }
